@@ -17,6 +17,8 @@ import (
 	"runtime"
 	"sort"
 	"strings"
+	"sync"
+	"sync/atomic"
 	"time"
 
 	"github.com/ErdemOzgen/blackdagger/internal/dag/scheduler"
@@ -36,6 +38,14 @@ type op struct {
 	St   int    `json:"st"`   // scheduler status
 	Days int    `json:"days"` // removeOld retention / age
 	Big  int    `json:"big"`  // extra bytes in the status (a long log path): status lines across buffer sizes
+	// update / write: statuses recorded immediately BEFORE the one with payload P, with no query in between (so that a
+	// background reader can be in the middle of re-reading the file when the next line lands); only P survives
+	Burst []string `json:"burst,omitempty"`
+	// no query after this operation (the next operation follows at once): the answer record only says "skip"
+	NoQ bool `json:"noq,omitempty"`
+	// start that many reader goroutines (recent history of the DAG, through the long-lived store) right before the
+	// operation and stop them right after it: their first read of a file nobody has read yet overlaps the operation
+	Spawn int `json:"spawn,omitempty"`
 }
 
 type hcase struct {
@@ -45,6 +55,10 @@ type hcase struct {
 	Today bool     `json:"today"` // latestStatusToday
 	Reqs  []string `json:"reqs"`  // request ids to look up after every op
 	Ns    []int    `json:"ns"`    // recent-history sizes to query
+	// background readers: goroutines keep asking the long-lived store for the recent / latest status of every DAG
+	// while the operations go on (the web server does that while agents write); their answers are not judged - the
+	// answers given AFTER each operation are, so a reader that leaves a stale view behind is noticed
+	Bg int `json:"bg,omitempty"`
 }
 
 type answer struct {
@@ -53,6 +67,7 @@ type answer struct {
 	Latest []string            `json:"latest"`        // per dag: payload | "!nodata" | "!err:<msg class>"
 	Recent map[string][]string `json:"recent"`        // "d/n" -> payloads
 	Files  []string            `json:"files"`         // data dir listing (relative), sorted
+	Skip   bool                `json:"skip,omitempty"`
 }
 
 func mkStatus(name, req, p string, st int, big ...int) *model.Status {
@@ -98,9 +113,59 @@ func runCase(c hcase) (res []answer, panicked string) {
 	writerDag := map[int]int{}
 	reader := jsondb.New(dataDir, c.Today) // one long-lived store answers all queries (its cache is exercised)
 	admin := jsondb.New(dataDir, c.Today)
+	var bgIters atomic.Int64
+	stopBg := make(chan struct{})
+	var bgWG sync.WaitGroup
+	for g := 0; g < c.Bg; g++ {
+		bgWG.Add(1)
+		go func(g int) {
+			defer bgWG.Done()
+			defer func() { _ = recover() }()
+			for {
+				select {
+				case <-stopBg:
+					return
+				default:
+				}
+				bgIters.Add(1)
+				for d := range c.Dags {
+					if (d+g)%2 == 0 {
+						reader.ReadStatusRecent(paths[d], 1+g%2*4)
+					} else {
+						_, _ = reader.ReadStatusToday(paths[d])
+					}
+				}
+			}
+		}(g)
+	}
+	defer func() {
+		close(stopBg)
+		bgWG.Wait()
+		if os.Getenv("VERIF_BG_DEBUG") != "" {
+			fmt.Fprintf(os.Stderr, "%s: %d background reader rounds\n", c.ID, bgIters.Load())
+		}
+	}()
 	for _, o := range c.Ops {
 		var a answer
 		var err error
+		var spStop atomic.Bool
+		var spWG sync.WaitGroup
+		if o.Spawn > 0 {
+			dd := o.D
+			if o.Op == "write" {
+				dd = writerDag[o.K]
+			}
+			for g := 0; g < o.Spawn; g++ {
+				spWG.Add(1)
+				go func() {
+					defer spWG.Done()
+					defer func() { _ = recover() }()
+					for !spStop.Load() {
+						reader.ReadStatusRecent(paths[dd], 1)
+					}
+				}()
+			}
+		}
 		switch o.Op {
 		case "open":
 			w := jsondb.New(dataDir, c.Today)
@@ -109,6 +174,9 @@ func runCase(c hcase) (res []answer, panicked string) {
 			err = w.Open(paths[o.D], time.UnixMilli(o.T).UTC(), o.Req)
 		case "write":
 			if w := writers[o.K]; w != nil {
+				for _, bp := range o.Burst {
+					_ = w.Write(mkStatus(c.Dags[writerDag[o.K]], o.Req, bp, o.St, 0))
+				}
 				err = w.Write(mkStatus(c.Dags[writerDag[o.K]], o.Req, o.P, o.St, o.Big))
 			}
 		case "close":
@@ -119,6 +187,9 @@ func runCase(c hcase) (res []answer, panicked string) {
 		case "abandon": // the recording process is gone without closing (killed): no compaction
 			delete(writers, o.K)
 		case "update":
+			for _, bp := range o.Burst {
+				_ = admin.Update(paths[o.D], o.Req, mkStatus(c.Dags[o.D], o.Req, bp, o.St, 0))
+			}
 			err = admin.Update(paths[o.D], o.Req, mkStatus(c.Dags[o.D], o.Req, o.P, o.St, o.Big))
 		case "rename":
 			err = admin.Rename(paths[o.D], paths[o.D2])
@@ -136,7 +207,14 @@ func runCase(c hcase) (res []answer, panicked string) {
 				return nil
 			})
 		}
+		spStop.Store(true)
+		spWG.Wait()
 		a.Err = errClass(err)
+		if o.NoQ {
+			a.Skip = true
+			res = append(res, a)
+			continue
+		}
 		a.Find = map[string]string{}
 		a.Recent = map[string][]string{}
 		for d := range c.Dags {
@@ -182,7 +260,9 @@ func dirPrefix(dagFile string) string {
 
 // ---- crash modes (C07) ----
 // exec  <root> <opsfile> : perform the ops (JSON list) as ONE recording/admin process over <root>/data;
-//                          prints "ack <i>" (unbuffered) after op i has returned. Meant to be killed.
+//
+//	prints "ack <i>" (unbuffered) after op i has returned. Meant to be killed.
+//
 // query <root> <casefile>: answer all queries of the case over <root>/data + list files with their parse result.
 func execMode(root, opsFile string) {
 	runtime.LockOSThread()
